@@ -34,7 +34,14 @@ pub enum VmScenario {
         then_as: Option<usize>,
     },
     /// C02 at VM level: `Vm::exec` under `specs` against the sequential schedule
-    Determinism { case: VmCase, specs: Vec<SchedSpec> },
+    /// `limit_frac`: compare under a finite total gas limit of `num/den` of what the
+    /// sequential run spends without a limit (children then compete for the same budget)
+    Determinism {
+        case: VmCase,
+        specs: Vec<SchedSpec>,
+        #[serde(default)]
+        limit_frac: Option<(u64, u64)>,
+    },
     /// C05: totality and bounds; `calls` = number of consecutive exec calls on the same VM
     Total {
         case: VmCase,
@@ -99,7 +106,7 @@ fn child_body(rng: &mut Rng, breadth: Word, tag: &mut String) -> Vec<Op> {
     let mut v = Vec::new();
     let n_parts = 1 + rng.usize(3);
     for _ in 0..n_parts {
-        match rng.below(15) {
+        match rng.below(18) {
             13 => {
                 // finish the innermost inherited loop frame, then look at the enclosing one
                 tag.push_str("end-inherited-loop,");
@@ -158,6 +165,21 @@ fn child_body(rng: &mut Rng, breadth: Word, tag: &mut String) -> Vec<Op> {
                 v.extend([PUSH(4), ALOC()]); // [.., i, A]
                 v.extend([PUSH(1), DUPF(), PUSH(50), SWAP(), PUSH(2), PUSH(1), PUSH(4), DUPF(), KRNG(), POP()]);
             }
+            14 => {
+                // copy the first words of the parent's memory into own memory: what a child
+                // sees of the parent becomes part of the joined result
+                tag.push_str("parent-copy,");
+                v.extend([PUSH(2), ALOC(), POP(), PUSH(0), PUSH(2), LODPR(), PUSH(2), PUSH(0), ALOC(), PUSH(2), SUB(), STOR()]);
+            }
+            15 => {
+                // children with an odd index write one word, the others stay silent
+                tag.push_str("odd-writes,");
+                v.extend([PUSH(6), PUSH(1), DUPF(), PUSH(2), MOD(), NOT(), JMPIF(), PUSH(1), ALOC(), POP(), PUSH(0), POP()]);
+            }
+            16 | 17 => {
+                tag.push_str("silent,");
+                v.extend([DUP(), POP()]);
+            }
             10 => {
                 tag.push_str("pex,");
                 v.extend([PUSH(1), PUSH(2), PUSH(3), PUSH(4), PEX(), POP()]);
@@ -207,6 +229,14 @@ pub fn gen_forkjoin(rng: &mut Rng, light: bool) -> VmCase {
     }
     let mem: Vec<Word> = (0..rng.usize(6)).map(|i| 900 + i as Word).collect();
     ops.extend(frag_mem_append(&mem));
+    if rng.chance(1, 10) {
+        // a parent memory that is full or nearly so: what the children add must be counted
+        // exactly (silent children fit, one word too many does not)
+        let fill = 10240 - mem.len() as Word - *rng.pick(&[0, 0, 1, 2, 3, 5, 64]);
+        tag.push_str(&format!("parent-mem-{},", fill + mem.len() as Word));
+        ops.extend([PUSH(fill), ALOC(), POP()]);
+    }
+    let two_computes = !in_loop && mem.len() >= 2 && rng.chance(1, 4);
     if in_loop {
         tag.push_str("in-repeat,");
         ops.extend([PUSH(2 + rng.range(0, 1)), PUSH(rng.range(0, 1)), REP()]);
@@ -217,11 +247,37 @@ pub fn gen_forkjoin(rng: &mut Rng, light: bool) -> VmCase {
     }
     ops.push(PUSH(breadth));
     ops.push(COM());
-    let body = child_body(rng, breadth, &mut tag);
+    let body = if two_computes && rng.chance(1, 2) {
+        tag.push_str("silent,");
+        vec![DUP(), POP()]
+    } else {
+        child_body(rng, breadth, &mut tag)
+    };
     ops.extend(body);
     match rng.below(6) {
-        0 => tag.push_str("no-compute-end,"),
+        0 if !two_computes => tag.push_str("no-compute-end,"),
         _ => ops.push(COME()),
+    }
+    if two_computes {
+        // the parent changes its memory between two Computes: the children of the second one
+        // must see the memory as it is then
+        tag.push_str("then-second-compute,");
+        match rng.below(6) {
+            0 => ops.extend([PUSH(-71), PUSH(-72), PUSH(2), PUSH(0), STOR()]),
+            1 => ops.extend([PUSH(-73), PUSH(1), STO()]),
+            2 => {
+                // a state read into the existing memory (needs room for one pair and one word)
+                ops.extend([PUSH(3), ALOC(), POP()]);
+                ops.extend([PUSH(50), PUSH(1), PUSH(2), PUSH(1), PUSH(0), KRNG()]);
+            }
+            3 => ops.extend([PUSH(50), PUSH(1), PUSH(2), PUSH(0), PUSH(0), KRNG()]),
+            4 => ops.extend([PUSH(2), ALOC(), POP(), PUSH(-74), PUSH(0), STO()]),
+            _ => ops.extend([PUSH(-75), PUSH(-76), PUSH(-77), PUSH(2), PUSH(0), STOR(), PUSH(0), STO()]),
+        }
+        let b2 = 1 + rng.range(0, 3);
+        ops.extend([PUSH(b2), COM()]);
+        ops.extend([PUSH(2), ALOC(), POP(), PUSH(0), PUSH(2), LODPR(), PUSH(2), PUSH(0), STOR()]);
+        ops.push(COME());
     }
     // suffix
     for _ in 0..rng.usize(3) {
@@ -247,6 +303,15 @@ pub fn gen_forkjoin(rng: &mut Rng, light: bool) -> VmCase {
             key: vec![50, rng.range(0, 5)],
             id: 7100,
         });
+    }
+    if tag.contains("state-read") && rng.chance(1, 6) {
+        // F2: the n-th device request fails once (a child's read, whichever arrives n-th): the
+        // Compute fails whatever the schedule; nothing it did before may be dropped from the books
+        c.faults.push(Fault::Transient {
+            nth: rng.below(6),
+            id: 7150,
+        });
+        tag.push_str("transient-read-error,");
     }
     c.container = random_container(rng);
     c.shape = format!("forkjoin breadth={breadth} {tag}");
@@ -431,7 +496,27 @@ pub fn gen_read(rng: &mut Rng) -> VmCase {
         (true, true) => PKREX(),
     };
     let mut ops = vec![op];
-    if rng.chance(1, 4) {
+    let plain = kl == key_len as Word && (0..=8).contains(&num) && addr >= 0 && (addr as usize) <= mem_len;
+    let twin = plain && rng.chance(1, 4);
+    if twin {
+        // the same request again, to the *other* view, on the same VM: each view must be asked
+        // and what it answers must be what lands in memory (the two views hold different values)
+        if ext {
+            for w in word_4_from_u8_32(other) {
+                ops.push(PUSH(w));
+            }
+        }
+        for w in &base_key {
+            ops.push(PUSH(*w));
+        }
+        ops.extend([PUSH(kl), PUSH(num), PUSH(addr)]);
+        ops.push(match (ext, post) {
+            (false, false) => PKRNG(),
+            (true, false) => PKREX(),
+            (false, true) => KRNG(),
+            (true, true) => KREX(),
+        });
+    } else if rng.chance(1, 4) {
         ops.push(PUSH(0x77)); // something after the read
     }
     c.program = to_bytes(&ops);
@@ -587,21 +672,36 @@ pub fn evaluate(sc: &VmScenario) -> VmEval {
         VmScenario::Gas { case, spec, limits } => eval_gas(&mut ev, case, spec, limits),
         VmScenario::Read { case, spec, then_as } => eval_read(&mut ev, case, spec, *then_as),
         VmScenario::Total { case, spec, calls } => eval_total(&mut ev, case, spec, *calls),
-        VmScenario::Determinism { case, specs } => eval_determinism(&mut ev, case, specs),
+        VmScenario::Determinism { case, specs, limit_frac } => eval_determinism(&mut ev, case, specs, *limit_frac),
     }
     ev
 }
 
-fn eval_determinism(ev: &mut VmEval, case: &VmCase, specs: &[SchedSpec]) {
+fn eval_determinism(ev: &mut VmEval, case: &VmCase, specs: &[SchedSpec], limit_frac: Option<(u64, u64)>) {
     let ca = Arc::new(case.clone());
     let (r0, info0) = run_vm(&ca, &SchedSpec::sequential(), u64::MAX, RunOpts::default());
     ev.infos.push(info0);
-    let Ok(o0) = r0 else {
+    let Ok(mut o0) = r0 else {
         ev.note("sequential_abnormal");
         return;
     };
+    // a finite budget the children compete for: a fraction of what the unlimited run spends
+    let mut limit = u64::MAX;
+    if let (Some((num, den)), VmResult::Ok { gas }) = (limit_frac, &o0.result) {
+        limit = ((*gas as u128 * num as u128) / den.max(1) as u128).max(1) as u64;
+        let (r1, info1) = run_vm(&ca, &SchedSpec::sequential(), limit, RunOpts::default());
+        ev.infos.push(info1);
+        match r1 {
+            Ok(o1) => o0 = o1,
+            Err(_) => {
+                ev.note("sequential_abnormal");
+                return;
+            }
+        }
+        ev.note("finite_limit");
+    }
     for spec in specs {
-        let (r, info) = run_vm(&ca, spec, u64::MAX, RunOpts::default());
+        let (r, info) = run_vm(&ca, spec, limit, RunOpts::default());
         if info.multi_error_regions > 0 {
             ev.note("several_children_failed");
         }
@@ -1045,6 +1145,87 @@ fn layout(mem: &[Word], addr: usize, values: &[Value]) -> Option<Vec<Word>> {
     Some(out)
 }
 
+/// Two reads of the same range on one VM, the second through the other view.
+fn eval_read_twin(ev: &mut VmEval, case: &VmCase, spec: &SchedSpec, first_post: bool, addr: usize, below: &[Word]) {
+    let ca = Arc::new(case.clone());
+    let (r, info) = run_vm(&ca, spec, u64::MAX, RunOpts::default());
+    ev.infos.push(info);
+    let o = match r {
+        Ok(o) => o,
+        Err(VmRunError::Panic(p)) => {
+            ev.finding = Some(panic_finding(&p));
+            return;
+        }
+        Err(VmRunError::Harness(m)) => {
+            ev.finding = Some(finding("harness-error", m));
+            return;
+        }
+        Err(e) => {
+            ev.finding = Some(finding("read-abnormal", format!("{e:?}")));
+            return;
+        }
+    };
+    ev.note("twin_reads");
+    let reads: Vec<&Ev> = o.reads.iter().collect();
+    let Some(Ev::Read { view: v1, contract: c1, key: k1, n: n1, err: e1, data: d1, .. }) = reads.first().copied() else {
+        ev.finding = Some(finding("read-request-count", format!("0 device requests for two read ops [{}]", case.shape)));
+        return;
+    };
+    let want1 = if first_post { View::Post } else { View::Pre };
+    let want2 = if first_post { View::Pre } else { View::Post };
+    if *v1 != want1 {
+        ev.finding = Some(finding("read-wrong-request", format!("first read asked {v1:?}, operands say {want1:?} [{}]", case.shape)));
+        return;
+    }
+    // the first read may legitimately fail (device fault, answer does not fit): then nothing follows
+    let first_mem = match (e1, d1) {
+        (None, Some(values)) => layout(&case.init_memory, addr, values),
+        _ => None,
+    };
+    let Some(mem1) = first_mem else {
+        if reads.len() > 1 && matches!(o.result, VmResult::Err { pc: 0, .. }) {
+            ev.finding = Some(finding("read-request-count", format!("the first read failed, yet {} requests were made [{}]", reads.len(), case.shape)));
+        }
+        return;
+    };
+    if reads.len() != 2 {
+        ev.finding = Some(finding(
+            "read-request-count",
+            format!("{} device requests for two read ops (one per view) [{}]", reads.len(), case.shape),
+        ));
+        return;
+    }
+    let Ev::Read { view: v2, contract: c2, key: k2, n: n2, err: e2, data: d2, .. } = reads[1] else {
+        return;
+    };
+    if *v2 != want2 || c2 != c1 || k2 != k1 || n2 != n1 {
+        ev.finding = Some(finding(
+            "read-wrong-request",
+            format!("second read asked {v2:?} contract {:02x?}.. key {k2:?} n {n2}; operands say {want2:?} contract {:02x?}.. key {k1:?} n {n1} [{}]", &c2[..4], &c1[..4], case.shape),
+        ));
+        return;
+    }
+    if let (None, Some(values)) = (e2, d2) {
+        if let (Some(mem2), VmResult::Ok { .. }) = (layout(&mem1, addr, values), &o.result) {
+            if o.state.memory != mem2 {
+                ev.finding = Some(finding(
+                    "read-wrong-layout",
+                    format!(
+                        "memory after the second read (other view) differs from the layout of what that view returned: expected {:?} got {:?} [{}]",
+                        &mem2[..mem2.len().min(40)],
+                        &o.state.memory[..o.state.memory.len().min(40)],
+                        case.shape
+                    ),
+                ));
+                return;
+            }
+            if o.state.stack != below {
+                ev.finding = Some(finding("read-stack-frame", format!("stack after two reads {:?}, words below the operands were {below:?} [{}]", o.state.stack, case.shape)));
+            }
+        }
+    }
+}
+
 fn eval_read(ev: &mut VmEval, case: &VmCase, spec: &SchedSpec, then_as: Option<usize>) {
     let ops = case.ops();
     let Some(op) = ops.first().copied() else {
@@ -1065,7 +1246,7 @@ fn eval_read(ev: &mut VmEval, case: &VmCase, spec: &SchedSpec, then_as: Option<u
     let st = &case.init_stack;
     let mut valid = true;
     let mut ix = st.len();
-    let mut take = |ix: &mut usize| -> Option<Word> {
+    let take = |ix: &mut usize| -> Option<Word> {
         if *ix == 0 {
             None
         } else {
@@ -1095,6 +1276,9 @@ fn eval_read(ev: &mut VmEval, case: &VmCase, spec: &SchedSpec, then_as: Option<u
         _ => valid = false,
     }
     let below = &st[..ix.min(st.len())];
+    if valid && ops.len() > 2 && matches!(ops.last(), Some(l) if *l == KRNG() || *l == KREX() || *l == PKRNG() || *l == PKREX()) {
+        return eval_read_twin(ev, case, spec, post, addr.unwrap() as usize, below);
+    }
     let ca = Arc::new(case.clone());
     if let (Some(ix2), true, false) = (then_as, valid, ext) {
         // the same VM serves another solution afterwards: its own-contract read must go to that
@@ -1402,7 +1586,15 @@ pub fn scenario_for(batch: &str, run_seed: u64) -> Option<VmScenario> {
                     s
                 })
                 .collect();
-            VmScenario::Determinism { case, specs }
+            // half of the cases under a finite budget
+            let limit_frac = match wl.below(8) {
+                0 => Some((1, 2)),
+                1 => Some((3, 4)),
+                2 => Some((9, 10)),
+                3 => Some((1, 1)),
+                _ => None,
+            };
+            VmScenario::Determinism { case, specs, limit_frac }
         }
         "c05-enum3" => {
             let case_ix = crate::c06::CASE_INDEX.with(|c| c.get());
@@ -1454,7 +1646,7 @@ fn sample_of(sc: &VmScenario) -> Json {
         | VmScenario::Gas { case, spec, .. }
         | VmScenario::Read { case, spec, .. }
         | VmScenario::Total { case, spec, .. } => (case, spec),
-        VmScenario::Determinism { case, specs } => (case, specs.first().unwrap_or(&seq)),
+        VmScenario::Determinism { case, specs, .. } => (case, specs.first().unwrap_or(&seq)),
     };
     json!({
         "shape": case.shape,
